@@ -176,21 +176,32 @@ fn logged_score(stderr: &str, written: Option<f64>) -> Option<f64> {
         .lines()
         .filter(|l| l.to_lowercase().contains("score") && (l.contains("INFO") || !l.contains("DEBUG") && !l.contains("TRACE")))
         .last()?;
-    let tok = line
-        .split(|c: char| !(c.is_ascii_digit() || c == '.' || c == '-' || c == '+' || c == 'e' || c == 'E'))
-        .filter(|t| t.chars().any(|c| c.is_ascii_digit()) && t.parse::<f64>().is_ok())
-        .last()?
-        .to_string();
-    let val: f64 = tok.parse().ok()?;
+    // the numbers of the line after the word "score" (a line may also name replicas, counts, ...)
+    let lower = line.to_lowercase();
+    let after = &line[lower.find("score").map(|i| i + 5).unwrap_or(0)..];
+    let numbers = |text: &str| -> Vec<String> {
+        text.split(|c: char| !(c.is_ascii_digit() || c == '.' || c == '-' || c == '+' || c == 'e' || c == 'E'))
+            .map(|t| t.trim_end_matches('.').to_string())
+            .filter(|t| t.chars().any(|c| c.is_ascii_digit()) && t.parse::<f64>().is_ok())
+            .collect()
+    };
+    let toks = numbers(after);
+    let toks = if toks.is_empty() { numbers(line) } else { toks };
+    // a number that is the written score at the precision it is printed with
     if let Some(w) = written {
-        if !tok.contains('e') && !tok.contains('E') {
-            let decimals = tok.split('.').nth(1).map(|d| d.len()).unwrap_or(0);
-            if format!("{:.*}", decimals, w) == tok.trim_start_matches('+') {
+        for tok in &toks {
+            if tok.parse::<f64>().ok().map(|v| v.to_bits()) == Some(w.to_bits()) {
                 return Some(w);
+            }
+            if !tok.contains('e') && !tok.contains('E') {
+                let decimals = tok.split('.').nth(1).map(|d| d.len()).unwrap_or(0);
+                if decimals >= 3 && format!("{:.*}", decimals, w) == tok.trim_start_matches('+') {
+                    return Some(w);
+                }
             }
         }
     }
-    Some(val)
+    toks.first().and_then(|t| t.parse().ok())
 }
 
 fn inspect_written<S>(json_path: &str) -> Option<Value>
